@@ -1,4 +1,4 @@
-import Gmx.Lemmas.Liquidity
+import Gmx.Lemmas.PoolValue
 /-!
 # C06 — liquidity providers cannot profit from a deposit/withdraw round trip
 
@@ -264,6 +264,100 @@ theorem roundtrip_no_profit_partial {W U : Nat} {m m₁ m₂ : Market} {d : Depo
   simp only [Nat.zero_mul, Nat.add_zero] at b2
   simp only [Nat.add_mul] at b1 b2
   omega
+
+/-! ### discharging the pool-value hypothesis when there are no positions -/
+
+/-- a successful deposit changes only the liquidity, swap-impact, claimable-fee pools, the swap
+virtual inventory and the supply; the liquidity pools grow by the credited amounts. -/
+theorem deposit_frame {W U : Nat} {m m₁ : Market} {d : DepositParams} {pin : PerpIn} {t : DepositTrace}
+    (hd : deposit W U m d pin = (m₁, .ok t)) :
+    m₁ = { m with primary := m₁.primary, swapImpact := m₁.swapImpact, fee := m₁.fee, viSwaps := m₁.viSwaps,
+                  supply := m₁.supply } ∧
+    m₁.primary.long = m.primary.long + (t.long.netAmount + t.long.fees.pool + t.short.positiveImpactAmount) ∧
+    m₁.primary.short = m.primary.short + (t.short.netAmount + t.short.fees.pool + t.long.positiveImpactAmount) := by
+  have f := deposit_spec hd
+  obtain ⟨mL, mS, fl, fl0, fs, fs0, hm, _⟩ := f.sides
+  have hL : mL = { m with primary := mL.primary, swapImpact := mL.swapImpact, fee := mL.fee, viSwaps := mL.viSwaps } ∧
+      mL.primary.long = m.primary.long + (t.long.netAmount + t.long.fees.pool) ∧
+      mL.primary.short = m.primary.short + t.long.positiveImpactAmount := by
+    by_cases hz : d.long = 0
+    · obtain ⟨e1, e2⟩ := fl0 hz; rw [e1, e2]; exact ⟨rfl, rfl, rfl⟩
+    · have g := fl hz
+      have a := g.liq_same; have b := g.liq_opp
+      simp only [Pool.amount, if_true, Bool.not_true, Bool.false_eq_true, if_false] at a b
+      exact ⟨g.frame, by omega, b⟩
+  have hS : mS = { mL with primary := mS.primary, swapImpact := mS.swapImpact, fee := mS.fee, viSwaps := mS.viSwaps } ∧
+      mS.primary.short = mL.primary.short + (t.short.netAmount + t.short.fees.pool) ∧
+      mS.primary.long = mL.primary.long + t.short.positiveImpactAmount := by
+    by_cases hz : d.short = 0
+    · obtain ⟨e1, e2⟩ := fs0 hz; rw [e1, e2]; exact ⟨rfl, rfl, rfl⟩
+    · have g := fs hz
+      have a := g.liq_same; have b := g.liq_opp
+      simp only [Pool.amount, Bool.false_eq_true, if_false, Bool.not_false, if_true] at a b
+      exact ⟨g.frame, by omega, b⟩
+  refine ⟨?_, ?_, ?_⟩
+  · rw [hm, hS.1, hL.1]
+  · rw [hm]; show mS.primary.long = _; omega
+  · rw [hm]; show mS.primary.short = _; omega
+
+/-- without open interest (no positions) and with well-formed prices (`min ≤ max` for the index,
+long and short tokens), the pool value the withdrawal sees is at most the pool value the deposit
+saw plus the value it credited — the hypothesis `hP` of `roundtrip_bound`. -/
+theorem poolValue_after_deposit_le {W U : Nat} {m m₁ m₂ : Market} {d : DepositParams} {pin pin' : PerpIn}
+    {t : DepositTrace} {r : WithdrawReport}
+    (hd : deposit W U m d pin = (m₁, .ok t))
+    (hw : withdraw W U m₁ ⟨t.report.minted, d.prices⟩ pin' = (m₂, .ok r))
+    (hno : NoOI m)
+    (hi : d.prices.index.min ≤ d.prices.index.max)
+    (hl : d.prices.long.min ≤ d.prices.long.max) (hsh : d.prices.short.min ≤ d.prices.short.max) :
+    r.poolValue ≤ t.poolValue + creditedValue d t := by
+  have f := deposit_spec hd
+  obtain ⟨hfr, eL, eS⟩ := deposit_frame hd
+  obtain ⟨_, _, hpw, _, _⟩ := withdraw_no_dilution hw
+  have hno₁ : NoOI m₁ := by
+    rw [hfr]; exact ⟨hno.oiL, hno.oiS, hno.oitL, hno.oitS, hno.tb⟩
+  obtain ⟨dd, ni, hp, hv⟩ := poolValue_noOI hno f.pv
+  obtain ⟨dd', ni', hp', hv'⟩ := poolValue_noOI hno₁ hpw
+  have hsame : m₁.pendingDistribution W U (passedInSeconds m₁.now m₁.clockImpactDist)
+      = m.pendingDistribution W U (passedInSeconds m.now m.clockImpactDist) := by
+    rw [hfr]; rfl
+  rw [hsame, hp] at hp'
+  cases hp'
+  simp only [Price.pick, if_true, Bool.false_eq_true, if_false, Bool.not_true, Bool.not_false] at hv hv'
+  rw [eL, eS] at hv'
+  unfold creditedValue
+  generalize t.long.netAmount + t.long.fees.pool + t.short.positiveImpactAmount = x at *
+  generalize t.short.netAmount + t.short.fees.pool + t.long.positiveImpactAmount = y at *
+  have a1 := Nat.add_le_add (Nat.mul_le_mul_left m.primary.long hl) (Nat.mul_le_mul_left x hl)
+  have a2 := Nat.add_le_add (Nat.mul_le_mul_left m.primary.short hsh) (Nat.mul_le_mul_left y hsh)
+  have a3 := Nat.mul_le_mul_left ni hi
+  simp only [Nat.add_mul] at hv'
+  push_cast at hv hv'
+  have b1 : (m.primary.long * d.prices.long.min + x * d.prices.long.min : Int)
+      ≤ m.primary.long * d.prices.long.max + x * d.prices.long.max := by exact_mod_cast a1
+  have b2 : (m.primary.short * d.prices.short.min + y * d.prices.short.min : Int)
+      ≤ m.primary.short * d.prices.short.max + y * d.prices.short.max := by exact_mod_cast a2
+  have b3 : (ni * d.prices.index.min : Int) ≤ ni * d.prices.index.max := by exact_mod_cast a3
+  have goal : (r.poolValue : Int) ≤ t.poolValue + (x * d.prices.long.max + y * d.prices.short.max : Nat) := by
+    push_cast; omega
+  exact_mod_cast goal
+
+/-- **round trip without positions** — `roundtrip_bound` with its pool-value hypothesis discharged:
+no open interest, existing holders, prices with `min ≤ max`. -/
+theorem roundtrip_bound_no_positions {W U : Nat} {m m₁ m₂ : Market} {d : DepositParams} {pin pin' : PerpIn}
+    {t : DepositTrace} {r : WithdrawReport}
+    (hd : deposit W U m d pin = (m₁, .ok t))
+    (hw : withdraw W U m₁ ⟨t.report.minted, d.prices⟩ pin' = (m₂, .ok r))
+    (hno : NoOI m) (hs : m.supply ≠ 0)
+    (hi : d.prices.index.min ≤ d.prices.index.max)
+    (hl : d.prices.long.min ≤ d.prices.long.max) (hsh : d.prices.short.min ≤ d.prices.short.max) :
+    (r.longOut + r.feesL.pool + r.feesL.receiver) * d.prices.long.max
+      + (r.shortOut + r.feesS.pool + r.feesS.receiver) * d.prices.short.max ≤ creditedValue d t ∧
+    ((t.long.positiveImpactAmount = 0 ∧ t.short.positiveImpactAmount = 0) →
+      r.longOut * d.prices.long.max + r.shortOut * d.prices.short.max
+        ≤ d.long * d.prices.long.max + d.short * d.prices.short.max) := by
+  have hP := poolValue_after_deposit_le hd hw hno hi hl hsh
+  exact ⟨(roundtrip_bound hd hw hs hl hsh hP).1, fun h0 => roundtrip_no_profit_partial hd hw hs hl hsh hP h0⟩
 
 /-! ### the literal statement is false of the code: two witnesses (replayed on the implementation) -/
 
